@@ -565,7 +565,8 @@ func genBuilder(ctx TaggedStructContext, genMethod fp.Set[string]) fp.Set[string
 
 	})
 
-	if allFields.Size() < max.Product {
+	// no tuple exists for zero fields (fp.Tuple0): nothing to generate then
+	if allFields.Size() > 0 && allFields.Size() < max.Product {
 
 		if !isMethodDefined(workingPackage, builderTypeName, "FromTuple") {
 			fppkg := w.GetImportedName(genfp.NewImportPackage("github.com/csgura/fp", "fp"))
@@ -658,7 +659,7 @@ func genBuilder(ctx TaggedStructContext, genMethod fp.Set[string]) fp.Set[string
 		)
 	}
 
-	if allFields.Size() < max.Product {
+	if allFields.Size() > 0 && allFields.Size() < max.Product {
 		if ts.Tags.Contains("@fp.GenLabelled") {
 
 			if !isMethodDefined(workingPackage, builderTypeName, "FromLabelled") {
